@@ -18,6 +18,14 @@ def handle (line : String) : String :=
     match hexArg f, parseClockSync c, k.toNat? with
     | some f, some c, some k => cmdTime f c k
     | _, _, _ => "bad-op"
+  | "timeseq" :: f :: items =>
+    match hexArg f, items.mapM (fun it => match it.splitOn "/" with
+        | [c, k] => match parseClockSync c, k.toNat? with
+          | some c, some k => some (c, k)
+          | _, _ => none
+        | _ => none) with
+    | some f, some xs => cmdTimeSeq f xs
+    | _, _ => "bad-op"
   | ["recover", h] => match hexArg h with | some b => cmdRecover b | none => "bad-op"
   | ["textout", f, d, hs] =>
     match hexArg f, hexArg d, parseHexList hs with
